@@ -218,6 +218,7 @@ pub fn power_variants(f: &SFile, exhaustive: bool) -> Vec<Variant> {
         let mut ls: Vec<usize> = ZERO_LENS.to_vec();
         ls.push(f.content.len() - b);
         ls.push(33 * 1024);
+        ls.push(64 * 1024 + 1);
         ls.sort();
         ls.dedup();
         for l in ls {
